@@ -39,6 +39,22 @@ func main() {
 		}
 	case "all":
 		os.Exit(cmdAll(os.Args[2:]))
+	case "anchors-gen":
+		// prints the body of core.AnchorTable for the current /repo tree (see tools/gen_anchors.sh)
+		p, err := core.Load("/repo", []string{"bigtable", "storage"}, nil)
+		if err != nil {
+			fmt.Println(err)
+			os.Exit(2)
+		}
+		names := map[string][]string{}
+		for _, pkg := range []string{core.PkgBttest, core.PkgGcsemu, core.PkgGcsutil} {
+			for _, f := range p.SrcFuncs(pkg) {
+				if f.Parent() == nil && f.Synthetic == "" && !p.IsGenerated(f.Pos()) {
+					names[pkg] = append(names[pkg], core.FuncName(f))
+				}
+			}
+		}
+		fmt.Print(p.GenAnchorTable(names))
 	case "replay":
 		os.Exit(cmdReplay(os.Args[2:]))
 	case "selftest":
